@@ -184,6 +184,22 @@ class PipeOps(FullOps):
         if name == "intersection":
             o = self.to_set(args[0], node) if args else SetV(items=())
             return self.set_binop(s, ast.BitAnd(), o, node)
+        if name == "symmetric_difference" and args:
+            o = self.to_set(args[0], node)
+            if isinstance(o, SetV) and o.items is not None and not o.items:
+                return s  # s ^ {} = s
+            if isinstance(o, SetV) and s.items is not None and not s.items:
+                return o
+            if isinstance(o, SetV):
+                eq = self.sets_equal(s, o)
+                self.ev("set_compare", node, left=repr(s)[:120], right=repr(o)[:120], left_atoms=sorted(self.atoms_of(s)), right_atoms=sorted(self.atoms_of(o)), equal=eq)
+                if eq is True:
+                    return SetV(items=())
+                a, b = self.atoms_of(s), self.atoms_of(o)
+                if self.strict_atoms and (a or self.set_is_empty(s)) and (b or self.set_is_empty(o)):
+                    d = (a - b) | (b - a)
+                    return SetV(items=()) if not d else SetV(items=None, elem=self.set_elem(s) or self.set_elem(o), atoms=frozenset(d))
+                return SetV(items=None, elem=self.set_elem(s) or self.set_elem(o), atoms=frozenset([f"(^:{'+'.join(sorted(a))}:{'+'.join(sorted(b))})"]))
         if name == "isdisjoint" and args:
             o = self.to_set(args[0], node)
             inter = self.set_binop(s, ast.BitAnd(), o, node) if isinstance(o, SetV) else None
@@ -579,6 +595,11 @@ class PipeOps(FullOps):
             if lst.items is not None and order is None:
                 order = (("literal-sequence",), "same")
             org = e.origin if isinstance(e, TV) else frozenset()
+            if fn in ("cat", "concatenate") and (d or 0) == 0 and isinstance(e, TV) and e.axes and e.axes[0] == "K":
+                # cat([t.unsqueeze(0) for t in ts], 0) is stack(ts, 0): every member brings one row, a fresh unit axis
+                self.pev("pack", node, fn="stack", dim=0, order=repr(order), elem=repr(e), in_loop=bool(self.loop_orders), spelled=fn)
+                lay = ((0, order, "stack"),) + tuple(e.layout)
+                return opaque(org, axes=("R", Q), layout=lay, dtype=e.dtype)
             self.pev("pack", node, fn=fn, dim=d, order=repr(order), elem=repr(e), in_loop=bool(self.loop_orders))
             inner = e.layout if isinstance(e, TV) else ()
             if fn in ("stack", "vstack"):
